@@ -2,6 +2,7 @@ package main
 
 import (
 	"fmt"
+	"math/big"
 	"go/types"
 	"sort"
 	"strings"
@@ -72,6 +73,10 @@ func (e *Engine) comp(st *State, name string) *Term {
 	}
 	if t, ok := e.initComps[name]; ok {
 		return t
+	}
+	if e.inInit {
+		// during package initialisation all memory is zero
+		return zeroArray(e.compSortOf(name))
 	}
 	return Sym("0:"+name, e.compSortOf(name))
 }
@@ -242,6 +247,10 @@ func (e *Engine) mergeStates(edges []edge) *State {
 	}
 	sort.Strings(ks)
 	for _, k := range ks {
+		if k == allocComp {
+			out.comps[k] = e.mergeAlloc(edges)
+			continue
+		}
 		var acc *Term
 		for i := len(edges) - 1; i >= 0; i-- {
 			v := e.comp(edges[i].st, k)
@@ -401,4 +410,93 @@ func shortFn(fn *ssa.Function) string {
 	s = strings.ReplaceAll(s, "github.com/goreleaser/nfpm/v2/", "")
 	s = strings.ReplaceAll(s, "github.com/goreleaser/nfpm/v2", "nfpm")
 	return s
+}
+
+
+func zeroOfSort(s *Sort) *Term {
+	switch s {
+	case BoolS:
+		return False
+	case IntS:
+		return IntT(0)
+	case StringS:
+		return StrT("")
+	case LocS:
+		return NilLoc
+	case SliceS:
+		return NilSlice
+	case IfaceS:
+		return NilIface
+	}
+	if s.Kind == "array" {
+		return zeroArray(s)
+	}
+	if s.Kind == "dt" && len(s.DT.Ctors) == 1 {
+		args := make([]*Term, len(s.DT.Ctors[0].Fields))
+		for i, f := range s.DT.Ctors[0].Fields {
+			args[i] = zeroOfSort(f.Sort)
+		}
+		return Ctor(s, s.DT.Ctors[0].Name, args...)
+	}
+	panic("zeroOfSort " + s.Name)
+}
+
+func zeroArray(s *Sort) *Term {
+	if s.Kind != "array" {
+		return zeroOfSort(s)
+	}
+	return ConstArr(s, zeroOfSort(s.Val))
+}
+
+// rebase replaces the all-zero base of a store chain by an unknown array:
+// after package initialisation only the cells that initialisation wrote are
+// known, everything else is input.
+func rebase(t *Term, base *Term) *Term {
+	switch t.Op {
+	case "store":
+		return Store(rebase(t.Args[0], base), t.Args[1], t.Args[2])
+	case "constarr":
+		return base
+	case "ite":
+		return Ite(t.Args[0], rebase(t.Args[1], base), rebase(t.Args[2], base))
+	}
+	return t
+}
+
+
+// mergeAlloc: at a join the allocation counter becomes the maximum of the
+// incoming counters, so that object ids stay free of path conditions.
+func (e *Engine) mergeAlloc(edges []edge) *Term {
+	var base *Term
+	var maxK *big.Int
+	same := true
+	for i, ed := range edges {
+		v := e.comp(ed.st, allocComp)
+		b, k := linForm(v)
+		if i == 0 {
+			base, maxK = b, k
+			continue
+		}
+		if b != base {
+			same = false
+			break
+		}
+		if k.Cmp(maxK) > 0 {
+			maxK = k
+		}
+	}
+	if same {
+		if base == nil {
+			return BigT(maxK)
+		}
+		return Add(base, BigT(maxK))
+	}
+	f := Fresh("allocj", IntS)
+	for i, ed := range edges {
+		e.axiom(Ge(f, e.comp(ed.st, allocComp)))
+		if i == 0 {
+			e.noteAllocGe(f, e.comp(ed.st, allocComp))
+		}
+	}
+	return f
 }
